@@ -14,26 +14,64 @@ require (
 )
 
 require (
+	cloud.google.com/go/compute/metadata v0.9.0
 	cloud.google.com/go/longrunning v0.8.0 // indirect
+	github.com/Azure/azure-sdk-for-go/sdk/azcore v1.21.0
+	github.com/Azure/azure-sdk-for-go/sdk/azidentity v1.13.1
+	github.com/Azure/azure-sdk-for-go/sdk/internal v1.11.2
+	github.com/Azure/azure-sdk-for-go/sdk/storage/azblob v1.6.4
+	github.com/Azure/go-ntlmssp v0.1.1
+	github.com/AzureAD/microsoft-authentication-library-for-go v1.6.0
 	github.com/abbot/go-http-auth v0.4.1-0.20220112235402-e1cee1c72f2f // indirect
+	github.com/aws/aws-sdk-go v1.44.256
 	github.com/beorn7/perks v1.0.1 // indirect
 	github.com/cespare/xxhash/v2 v2.3.0 // indirect
+	github.com/cpuguy83/go-md2man/v2 v2.0.7
 	github.com/djherbis/atime v1.1.0 // indirect
+	github.com/dustin/go-humanize v1.0.1
+	github.com/go-asn1-ber/asn1-ber v1.5.8-0.20250403174932-29230038a667
+	github.com/go-ini/ini v1.67.0
+	github.com/go-ldap/ldap/v3 v3.4.12
+	github.com/golang-jwt/jwt/v5 v5.3.0
 	github.com/golang/snappy v1.0.0 // indirect
+	github.com/google/go-cmp v0.7.0
+	github.com/google/uuid v1.6.0 // indirect
+	github.com/grpc-ecosystem/go-grpc-prometheus v1.2.0
+	github.com/johannesboyne/gofakes3 v0.0.0-20230506070712-04da935ef877
+	github.com/klauspost/cpuid/v2 v2.3.0
+	github.com/klauspost/crc32 v1.3.0
+	github.com/kylelemons/godebug v1.1.0
+	github.com/minio/crc64nvme v1.1.1
+	github.com/minio/md5-simd v1.1.2
+	github.com/minio/minio-go/v7 v7.0.98
 	github.com/mostynb/go-grpc-compression v1.2.3 // indirect
 	github.com/mostynb/zstdpool-syncpool v0.0.13 // indirect
 	github.com/munnerz/goautoneg v0.0.0-20191010083416-a7dc8b61c822 // indirect
+	github.com/philhofer/fwd v1.2.0
+	github.com/pkg/browser v0.0.0-20240102092130-5ac0b6a4141c
 	github.com/prometheus/client_golang v1.23.2 // indirect
 	github.com/prometheus/client_model v0.6.2 // indirect
 	github.com/prometheus/common v0.67.5 // indirect
 	github.com/prometheus/procfs v0.19.2 // indirect
+	github.com/rs/xid v1.6.0
+	github.com/russross/blackfriday/v2 v2.1.0
+	github.com/ryszard/goskiplist v0.0.0-20150312221310-2dfbae5fcf46
+	github.com/shabbyrobe/gocovmerge v0.0.0-20190829150210-3e036491d500
+	github.com/slok/go-http-metrics v0.13.0
+	github.com/tinylib/msgp v1.6.3
+	github.com/urfave/cli/v2 v2.27.7
+	github.com/xrash/smetrics v0.0.0-20250705151800-55b8f293f342
 	go.yaml.in/yaml/v2 v2.4.3 // indirect
+	go.yaml.in/yaml/v3 v3.0.4
 	golang.org/x/net v0.57.0 // indirect
+	golang.org/x/oauth2 v0.36.0
 	golang.org/x/sync v0.22.0 // indirect
 	golang.org/x/sys v0.47.0 // indirect
 	golang.org/x/text v0.40.0 // indirect
+	golang.org/x/tools v0.47.0
 	google.golang.org/genproto/googleapis/api v0.0.0-20260414002931-afd174a4e478 // indirect
 	google.golang.org/genproto/googleapis/rpc v0.0.0-20260720211330-0afa2a65878a // indirect
+	gopkg.in/yaml.v3 v3.0.1
 )
 
 replace github.com/buchgr/bazel-remote/v2 => /repo
